@@ -12,7 +12,7 @@ round trip of the manifest (C16's `man_roundtrip`: FromStackItem (ToStackItem m)
                 of System.Contract.Call, same item written back by a NEF-only update
 
 Hypotheses on the parameters (what the Go types / encoding/json establish, never axioms):
-  hv   a manifest deploy/update accepted is well-formed for the decoder (valid UTF-8, valid types, canonical keys)
+  (that an accepted manifest is well-formed for the decoder is no longer a hypothesis: `accept` checks it, `wfB_wf`)
   hc   re-marshalling `extra` is idempotent (extraToStackItem of its own output)
 -/
 import NeoModel.Model.Ledger.Mgmt
@@ -22,8 +22,34 @@ import NeoModel.Proofs.LedgerProduct
 namespace NeoModel.Ledger.Mgmt
 open NeoModel.Flags.MF NeoModel.Ledger NeoModel.Ledger.Comp
 
+theorem descWfB_wf (d : Dec) (x : Desc) (h : descWfB d x = true) : x.WF d := by
+  cases x with
+  | wildcard => trivial
+  | hash hh => simpa [descWfB, Desc.WF] using h
+  | group k => simpa [descWfB, Desc.WF] using h
+
+theorem wfB_wf (d : Dec) (m : Man) (h : wfB d m = true) : m.WF d := by
+  simp only [wfB, Bool.and_eq_true, List.all_eq_true, beq_iff_eq, List.contains_eq_mem, decide_eq_true_eq] at h
+  obtain ⟨⟨⟨⟨⟨⟨h1, h2⟩, h3⟩, h4⟩, h5⟩, h6⟩, h7⟩ := h
+  refine ⟨h1, ?_, h3, ?_, ?_, ?_, ?_⟩
+  · intro g hg; exact h2 g hg
+  · intro x hx
+    have := h4 x hx
+    exact ⟨this.1.1, this.1.2, fun p hp => this.2 p hp⟩
+  · intro e he
+    have := h5 e he
+    exact ⟨this.1, fun p hp => this.2 p hp⟩
+  · intro p hp
+    have := h6 p hp
+    refine ⟨descWfB_wf d _ this.1, ?_⟩
+    intro ms hms x hx
+    have h2 := this.2
+    rw [hms] at h2
+    simp only [List.all_eq_true] at h2
+    exact h2 x hx
+  · intro t ht; exact descWfB_wf d t (h7 t ht)
+
 structure Hyp (P : Params) : Prop where
-  hv : ∀ m, P.valid m = true → m.WF P.dec
   hc : ∀ e, extraItem P.compact (extraItem P.compact e) = extraItem P.compact e
 
 def RecRel (P : Params) (rc : Rec Man) (rs : Rec Item) : Prop :=
@@ -107,7 +133,7 @@ theorem optRel_upd (P : Params) (s : Nat → Option (Rec Item)) (c : MCache) (k 
   · simp [e, hv]
   · simp [e, hj k']
 
-theorem mgmt_step (P : Params) (hy : Hyp P) (s : MStore) (c : MCache) (o : MOp) (s' : MStore) (c' : MCache)
+theorem mgmt_step (P : Params) (_hy : Hyp P) (s : MStore) (c : MCache) (o : MOp) (s' : MStore) (c' : MCache)
     (hj : MgmtJ P s c) (he : exec P s c o = some (s', c')) : MgmtJ P s' c' := by
   cases o with
   | deploy k m =>
@@ -116,10 +142,10 @@ theorem mgmt_step (P : Params) (hy : Hyp P) (s : MStore) (c : MCache) (o : MOp) 
     | some r => simp [hck] at he
     | none =>
       simp only [hck] at he
-      by_cases hv : P.valid m = true
+      by_cases hv : accept P m = true
       · simp only [hv, Bool.not_true, Bool.false_eq_true, if_false, Option.some.injEq, Prod.mk.injEq] at he
         rw [← he.1, ← he.2]
-        exact optRel_upd P _ _ _ _ _ hj ⟨rfl, rfl, hy.hv m hv, rfl⟩
+        exact optRel_upd P _ _ _ _ _ hj ⟨rfl, rfl, wfB_wf _ m (by simp only [accept, Bool.and_eq_true] at hv; exact hv.1), rfl⟩
       · simp [hv] at he
   | update k mo =>
     simp only [exec] at he
@@ -140,12 +166,12 @@ theorem mgmt_step (P : Params) (hy : Hyp P) (s : MStore) (c : MCache) (o : MOp) 
           exact optRel_upd P _ _ _ _ _ hj ⟨rfl, rfl, hk.2.2.1, rfl⟩
         | some m =>
           simp only at he
-          by_cases hv : P.valid m = true
+          by_cases hv : accept P m = true
           · by_cases hn : m.name != r.man.name
             · simp [hv, hn] at he
             · simp only [hv, hn, Bool.not_true, Bool.or_self, Bool.false_eq_true, if_false, Option.some.injEq, Prod.mk.injEq] at he
               rw [← he.1, ← he.2]
-              exact optRel_upd P _ _ _ _ _ hj ⟨rfl, rfl, hy.hv m hv, rfl⟩
+              exact optRel_upd P _ _ _ _ _ hj ⟨rfl, rfl, wfB_wf _ m (by simp only [accept, Bool.and_eq_true] at hv; exact hv.1), rfl⟩
           · simp [hv] at he
   | destroy k =>
     simp only [exec] at he
@@ -218,7 +244,7 @@ theorem mgmt_blind (P : Params) (s : MStore) (c₁ c₂ : MCache) (o : MOp) (j1 
   | deploy k m =>
     rcases common P s c₁ c₂ j1 j2 k with ⟨h1, h2⟩ | ⟨r₁, r₂, h1, h2, _⟩
     · simp only [exec, h1, h2]
-      by_cases hv : P.valid m = true <;> simp [hv]
+      by_cases hv : accept P m = true <;> simp [hv]
     · simp [exec, h1, h2]
   | update k mo =>
     rcases common P s c₁ c₂ j1 j2 k with ⟨h1, h2⟩ | ⟨r₁, r₂, h1, h2, hid, hup, hit, hn, _⟩
@@ -228,7 +254,7 @@ theorem mgmt_blind (P : Params) (s : MStore) (c₁ c₂ : MCache) (o : MOp) (j1 
       | none => simp [hid, hup, hit]
       | some m =>
         simp only [hn]
-        by_cases hv : P.valid m = true <;> by_cases hnn : m.name != r₂.man.name <;> simp [hv, hnn, hid, hup]
+        by_cases hv : accept P m = true <;> by_cases hnn : m.name != r₂.man.name <;> simp [hv, hnn, hid, hup]
   | destroy k =>
     rcases common P s c₁ c₂ j1 j2 k with ⟨h1, h2⟩ | ⟨r₁, r₂, h1, h2, _⟩
     · simp [exec, h1, h2]
@@ -293,38 +319,7 @@ theorem mgmt_crun_good (P : Params) (hy : Hyp P) (steps : List (CStep MOp)) :
 
 -- the driver's instance meets the hypotheses ------------------------------------------------------------------------------
 
-theorem descWfB_wf (d : Dec) (x : Desc) (h : descWfB d x = true) : x.WF d := by
-  cases x with
-  | wildcard => trivial
-  | hash hh => simpa [descWfB, Desc.WF] using h
-  | group k => simpa [descWfB, Desc.WF] using h
-
-theorem wfB_wf (d : Dec) (m : Man) (h : wfB d m = true) : m.WF d := by
-  simp only [wfB, Bool.and_eq_true, List.all_eq_true, beq_iff_eq, List.contains_eq_mem, decide_eq_true_eq] at h
-  obtain ⟨⟨⟨⟨⟨⟨h1, h2⟩, h3⟩, h4⟩, h5⟩, h6⟩, h7⟩ := h
-  refine ⟨h1, ?_, h3, ?_, ?_, ?_, ?_⟩
-  · intro g hg; exact h2 g hg
-  · intro x hx
-    have := h4 x hx
-    exact ⟨this.1.1, this.1.2, fun p hp => this.2 p hp⟩
-  · intro e he
-    have := h5 e he
-    exact ⟨this.1, fun p hp => this.2 p hp⟩
-  · intro p hp
-    have := h6 p hp
-    refine ⟨descWfB_wf d _ this.1, ?_⟩
-    intro ms hms x hx
-    have h2 := this.2
-    rw [hms] at h2
-    simp only [List.all_eq_true] at h2
-    exact h2 x hx
-  · intro t ht; exact descWfB_wf d t (h7 t ht)
-
 theorem driverParams_hyp (hashOf : Nat → Bytes) : Hyp (driverParams hashOf) where
-  hv := by
-    intro m hm
-    simp only [driverParams, Bool.and_eq_true] at hm
-    exact wfB_wf _ m hm.1
   hc := by
     intro e
     simp only [driverParams, extraItem]
